@@ -274,6 +274,9 @@ static ext2fs_generic_bitmap build_a(const struct ext2_bitmap_ops *ops)
 	LOAD_IN();
 	ASSUME(!IS32M(IN.magic));	/* legacy 32-bit bitmaps are dispatched to gen_bitmap.c (separate units) */
 	ASSUME(IN.cluster_bits >= 0 && IN.cluster_bits <= 32);
+#ifdef EXP_CB0
+	ASSUME(IN.cluster_bits == 0);
+#endif
 	ASSUME(IN.start <= IN.end && IN.end <= IN.real_end);
 	ASSUME(IN.real_end < (MAX_BLOCKS >> IN.cluster_bits));
 	ASSUME(IN.base_error_code >= 0 && IN.base_error_code < 0x7fffffff00000000L);
@@ -285,3 +288,20 @@ static ext2fs_generic_bitmap build_a(const struct ext2_bitmap_ops *ops)
 	G_CALLS = 0; G_OP = OP_NONE; G_ARG = 0; G_NUM = 0; G_WARN = 0; G_CODE = 0; g_ptr = 0; g_bm = 0;
 	return IN.null_bitmap ? 0 : (ext2fs_generic_bitmap)&BMA;
 }
+
+/* Case split on the cluster shift.  A symbolic shift distance makes every obligation a hard SAT problem; the body is
+ * therefore run once per value of cluster_bits with the value stored as a constant (all 33 legal values are covered:
+ * this is a complete enumeration, not a restriction). */
+#ifdef NO_SPLIT_CB
+#define SPLIT_CB(fn, g) fn(g)
+#else
+#define CB_CASE(n, fn, g) case n: BMA.cluster_bits = n; fn(g); break;
+#define SPLIT_CB(fn, g) switch (BMA.cluster_bits) { \
+	CB_CASE(0, fn, g) CB_CASE(1, fn, g) CB_CASE(2, fn, g) CB_CASE(3, fn, g) CB_CASE(4, fn, g) CB_CASE(5, fn, g) \
+	CB_CASE(6, fn, g) CB_CASE(7, fn, g) CB_CASE(8, fn, g) CB_CASE(9, fn, g) CB_CASE(10, fn, g) CB_CASE(11, fn, g) \
+	CB_CASE(12, fn, g) CB_CASE(13, fn, g) CB_CASE(14, fn, g) CB_CASE(15, fn, g) CB_CASE(16, fn, g) CB_CASE(17, fn, g) \
+	CB_CASE(18, fn, g) CB_CASE(19, fn, g) CB_CASE(20, fn, g) CB_CASE(21, fn, g) CB_CASE(22, fn, g) CB_CASE(23, fn, g) \
+	CB_CASE(24, fn, g) CB_CASE(25, fn, g) CB_CASE(26, fn, g) CB_CASE(27, fn, g) CB_CASE(28, fn, g) CB_CASE(29, fn, g) \
+	CB_CASE(30, fn, g) CB_CASE(31, fn, g) CB_CASE(32, fn, g) \
+	default: CHECK(0, "cluster_bits outside 0..32 is excluded by the precondition"); }
+#endif
